@@ -144,6 +144,10 @@ def ensure_facts(repo=REPO):
                     raise CheckError("fact extractor produced no facts for unit %s (wrapper skipped?)" % u)
             with open(done, "w") as f:
                 f.write("%.1f\n" % (time.time() - t0))
+        try:
+            os.utime(fdir, None)   # LRU: mark as in use
+        except OSError:
+            pass
     finally:
         fcntl.flock(lock, fcntl.LOCK_UN)
         lock.close()
